@@ -147,6 +147,13 @@ static void op_poly(const V &a, V &r) {  // opcode N p a(N) b(N) [c(N)]
         case 1: torusPolynomialSub(R, A, B); break;
         case 2: torusPolynomialAddMulZ(R, A, p, B); break;
         case 3: torusPolynomialSubMulZ(R, A, p, B); break;
+        // the same two with overlapping operands (the loops read element i before writing element i: any overlap is exact)
+        case 102: torusPolynomialAddMulZ(B, A, p, B); outp = B->coefsT; break;      // result is poly2
+        case 103: torusPolynomialSubMulZ(B, A, p, B); outp = B->coefsT; break;
+        case 112: torusPolynomialAddMulZ(A, A, p, B); outp = A->coefsT; break;      // result is poly1
+        case 113: torusPolynomialSubMulZ(A, A, p, B); outp = A->coefsT; break;
+        case 122: torusPolynomialAddMulZ(R, A, p, A); break;                         // poly1 is poly2
+        case 123: torusPolynomialSubMulZ(R, A, p, A); break;
         case 4: torusPolynomialMulByXai(R, p, A); break;
         case 5: torusPolynomialMulByXaiMinusOne(R, p, A); break;
         case 6: torusPolynomialMultNaive(R, AI, B); break;
